@@ -278,6 +278,9 @@ func TestWitnesses(t *testing.T) {
 				f := strings.Fields(l)
 				sigs = append(sigs, "panic@"+f[4]+"/"+f[0])
 			}
+			if strings.Contains(l, "json:") {
+				sigs = append(sigs, "result-not-serialisable/"+strings.Fields(l)[0])
+			}
 		}
 		if !accepted {
 			t.Errorf("%s: not accepted by coca's parser", p)
